@@ -354,15 +354,18 @@ pub fn families(tier: Tier, variant: &str) -> Vec<Family> {
         v.extend(prefixed("C14", lazy::families_c14(tier).into_iter().filter(|f| keep(f, &["embedded/plain-run", "embedded/b11"])).collect()));
         return v;
     }
-    v.extend(prefixed("C02", c02::families(tier, variant, c02::Mode::AcceptReject).into_iter().filter(|f| !f.name.starts_with("nesting")).collect()));
+    // all spaces; the three most expensive ones (the deviation-bounded token family of C02 and the
+    // thorough document generators of C10 / C11, hundreds of millions of lookups each) take part
+    // with their quick bounds: every run is done twice, once per build
+    v.extend(prefixed("C02", c02::families_opt(tier, variant, c02::Mode::AcceptReject, false).into_iter().filter(|f| !f.name.starts_with("nesting")).collect()));
     v.extend(prefixed("C03", c03::families(tier, variant, c03::Mode::Tree)));
     v.extend(prefixed("C04", c04::families(tier, variant).into_iter().filter(|f| f.name.starts_with("t20") || f.name.starts_with("map-keys")).collect()));
     v.extend(prefixed("C05", c05::families(tier, variant).into_iter().filter(|f| f.name.starts_with("strings/") && !f.name.contains("fenced")).collect()));
     v.extend(prefixed("C07", c07::families(tier, variant)));
     v.extend(prefixed("C09", c09::families(tier, variant)));
-    v.extend(prefixed("C10", lazy::families_c10(tier)));
-    v.extend(prefixed("C11", lazy::families_c11(tier)));
-    v.extend(prefixed("C12", lazy::families_c12(tier)));
-    v.extend(prefixed("C14", lazy::families_c14(tier).into_iter().filter(|f| f.name.starts_with("embedded/")).collect()));
+    v.extend(prefixed("C10", lazy::families_c10(Tier::Quick)));
+    v.extend(prefixed("C11", lazy::families_c11(Tier::Quick)));
+    v.extend(prefixed("C12", lazy::families_c12(Tier::Quick)));
+    v.extend(prefixed("C14", lazy::families_c14(tier).into_iter().filter(|f| f.name.starts_with("embedded/") || f.name.starts_with("byte-neighbourhood") || f.name.starts_with("string-head")).collect()));
     v
 }
